@@ -72,21 +72,29 @@ def judge(prog, res):
         res.sample({'bytes_without_c': len(u[1]), 'bytes_with_c': len(c[1]), 'source': src[:500]})
 
 
+PRES = [('nop',), ('li x5, 5',), ('mv x5, x6',), ('nop', 'nop', 'nop'), ('add x8, x8, x9',), ('nop', 'align 64'), ('dh 1', 'align 8', 'nop'), (),
+        ('align 64',) + ('addi x8, x8, 1',) * 8, ('align 4096', 'nop'), ('li x5, 5',) * 80, ('li x5, 5',) * 300, ('mv x5, x6',) * 150 + ('align 16',)]
+
+
 def const_target_job(lo, hi):
     """call / tail / j / jal to a CONSTANT (absolute) address at the edge of the near range, behind code that shrinks (with -c, or
     through an align): the assembler chooses between jal and auipc+jalr itself, so whatever assembles without -c must assemble
     with it - and a target that is in reach of the far form must be accepted in both modes."""
     a = env.load_asm()
     res = env.Result()
-    pres = [('nop',), ('li x5, 5',), ('mv x5, x6',), ('nop', 'nop', 'nop'), ('add x8, x8, x9',), ('nop', 'align 64'), ('dh 1', 'align 8', 'nop'), ()]
-    for pre in pres[lo:hi]:
-        pess = sum(64 if p.startswith('align 64') else 8 if p.startswith('align 8') else 2 if p.startswith('dh') else 8 if p.startswith('li') else 4 for p in pre)
-        for edge in (1 << 20, -(1 << 20), 2048, -2048):
-            for d in range(-12, 14, 2):
+    for pre in PRES[lo:hi]:
+        pess = sum(int(p.split()[1]) if p.startswith('align') else 2 if p.startswith('dh') else 8 if p.startswith('li') else 4 for p in pre)
+        for edge in (1 << 20, -(1 << 20), 2048, -2048, 256, -256, 0):
+            heavy = len(pre) > 20
+            ds = list(((-8, 0, 8) if abs(edge) > 256 else (-40, 0, 40)) if heavy else (range(-12, 14, 2) if abs(edge) > 256 else range(-48, 50, 4)))
+            if edge > 256:
+                # the item can still move down by up to its pessimistic position: targets that many bytes (and fractions of it) short of the edge
+                ds += sorted({-(pess * k // 8) // 2 * 2 for k in range(1, 9)} - set(ds))
+            for d in ds:
                 K = pess + edge + d
                 if K < 0:
                     continue
-                for name in ('call', 'tail', 'j', 'jal'):
+                for name in ('call', 'tail', 'j', 'jal', 'beqz x8,', 'bne x9, x0,'):
                     src = 'KTARGET = %d\n' % K + ''.join(p + '\n' for p in pre) + '%s KTARGET\n' % name
                     res.evaluations += 1
                     u = progcheck.assemble(a, src, False)
@@ -96,11 +104,15 @@ def const_target_job(lo, hi):
                                  {'kind': 'text', 'source': src})
                     elif u[0] == 'ok' and c[0] != 'ok' and name in ('call', 'tail'):
                         res.fail('only_with_c:const_target:%s' % name, '%r assembles without -c and is refused with it: %s' % (src, str(c[1])[-160:]), {'kind': 'text', 'source': src})
+                    elif u[0] == 'ok' and c[0] != 'ok' and ('8-bit MO2' in str(c[1]) or '11-bit MO2' in str(c[1])):
+                        # refused by the range check of c.beqz / c.bnez / c.j / c.jal - forms the COMPRESSOR chose for a 32-bit source line
+                        res.fail('only_with_c:const_target:compressed_form', '%s ... %r assembles without -c; with -c the compressor picks a 16-bit form whose range the final offset '
+                                 'exceeds: %s' % (src[:60], src[-30:], str(c[1])[-120:]), {'kind': 'text', 'source': src})
                     elif u[0] == 'ok' and c[0] != 'ok':
-                        res.count('jump_to_constant_out_of_reach_in_compressed_layout')   # j / jal as written cannot reach: the known finding's class
+                        res.count('jump_to_constant_out_of_reach_in_compressed_layout')   # the instruction as written cannot reach: the known finding's class
                     elif u[0] == 'ok' and u[1] != c[1]:
                         res.nontrivial_count += 1
-    res.sample({'constant_target_prefixes': [list(p) for p in pres[lo:hi]]})
+    res.sample({'constant_target_prefixes': [list(p)[:4] for p in PRES[lo:hi]]})
     return res
 
 
@@ -114,8 +126,8 @@ def run(tier):
     progcheck.run_corpus(chk, PROP, judge)
     for i, prof in enumerate(PROFILES):
         progcheck.run_sharded(chk, PROP + ('' if i == 0 else '#%d' % i), prof, N[tier] // len(PROFILES), 'judge', __name__)
-    chk.merge(env.run_shards(const_target_job, [(i, i + 1) for i in range(8)]))
-    chk.rule += ('; plus call / tail / j / jal to a constant address within 12 bytes of the +-1 MiB and +-2 KiB edges behind 8 kinds of shrinking code: '
+    chk.merge(env.run_shards(const_target_job, [(i, i + 1) for i in range(len(PRES))]))
+    chk.rule += ('; plus call / tail / j / jal / beqz / bne to a constant address round the +-1 MiB, +-2 KiB, +-256 B edges and round the instruction itself, behind 13 kinds of shrinking code (up to 300 li, aligns up to 4096): '
                  'call / tail must be accepted in both modes (the far form reaches everything)')
     _prog.check_vacuity(chk)
     return chk.finish()
